@@ -2,8 +2,8 @@ SPECIFICATION Spec
 CONSTANTS
   ShtabBreaksDefaults = {"A", "B"}
   ClearOnError = TRUE
-  Full = FALSE
-  Help = FALSE
+  Full = TRUE
+  Help = TRUE
   Emit = TRUE
 INVARIANT Balanced
 INVARIANT FramesExplainCtx
